@@ -80,6 +80,8 @@ func (c *Canary) VerifHandleICMP(eh *ethernet.Frame, iph *ipv4.Header, data []by
 
 // VerifDrainTx removes and returns the frames queued in the transmit ring.
 func (c *Canary) VerifDrainTx() [][]byte {
+	c.bufferMutex.Lock()
+	defer c.bufferMutex.Unlock()
 	var frames [][]byte
 	for {
 		hdr := [2]byte{}
